@@ -19,6 +19,7 @@
 -/
 import MajoranaVerif.Proofs.Mvp4Run
 import MajoranaVerif.Proofs.Mvp5Run
+import MajoranaVerif.Proofs.Mvp60SlRun
 open GoInt Model Model.Mvp4 Model.Seq Proofs.Mvp4
 
 namespace Props.C03
@@ -212,5 +213,37 @@ example : ∃ s0, Model.Mvp5.init exCtx = .ok s0 ∧ Proofs.Mvp5.Rel5 exApp5 s0 
   obtain ⟨s0, h1, h2, _⟩ := Proofs.Mvp5.init5_rel exApp5 exCtx
     ⟨rfl, rfl, fun r => by simp [exCtx, GoMap.get1, GoMap.get, GoMap.find?]⟩
   exact ⟨s0, h1, h2⟩
+
+end Props.C03
+
+/-! ## MVP-6.0 (package R60): the pipeline of the first superscalar variant stays in program order
+
+Proved for straight-line register-only programs (`Model.Mvp60.StraightLine`: no load/store, branch, jump, `ret`) and every
+number of execute and write units; for programs with control flow the corresponding statements are part of the unproved
+`Props.C01.Full_mvp60_regonly_correct`. -/
+namespace Props.C03
+
+/-- **the in-flight window is sequential (MVP-6.0).**  Between two ticks the runners on the execute bus, in the control
+unit's queue and on the control bus — oldest first — are the instructions number `n0, n0+1, …` of the program, where `n0`
+is the instruction the unpipelined machine executes next; the pcs on the decode bus and the fetch unit's pc continue them. -/
+theorem mvp60_in_flight_window_is_sequential (app : App) (s : Model.Mvp60.State) (a : Arch) (h : Proofs.Mvp60Sl.Rel app s a) :
+    ∃ n0, a.pc = Proofs.Mvp60Sl.pcOf n0 ∧ Proofs.Mvp60Sl.Chain app n0 (Proofs.Mvp60Sl.runners s) ∧
+      Proofs.Mvp60Sl.Pcs app (n0 + (Proofs.Mvp60Sl.runners s).length) s.fu s.decodeBus.inside 0 := by
+  obtain ⟨n0, h1, h2⟩ := h.front
+  exact ⟨n0, h1, h2.chain, h2.pcs⟩
+
+/-- **one tick of MVP-6.0 is a number of steps of the unpipelined machine** (at most one per execute unit, in program
+order): after it the relation holds again for the state the unpipelined machine has reached, or the run has ended the way
+the unpipelined machine ends there (past the last instruction with its registers and memory, or with its defined error). -/
+theorem mvp60_tick_is_sequential_steps (app : App) (hp : Proofs.Mvp60Sl.Prog app) (a0 : Arch) (s s' : Model.Mvp60.State)
+    (a : Arch) (k : Nat) (ev : Model.Mvp60.Event) (hk : Proofs.Mvp4.seqIter app k a0 = some a)
+    (hr : Proofs.Mvp60Sl.Rel app s a) (h : Model.Mvp60.cycle app s = (s', ev)) : Proofs.Mvp60Sl.TickPost app a0 s' ev :=
+  Proofs.Mvp60Sl.cycle_sim app hp a0 s s' a k ev hk hr h
+
+/-- Non-vacuity: the initial state of the machine (any number of units) is in the relation with the initial state of the
+unpipelined machine -/
+example (app : App) (eu : Nat) : ∃ s0, Model.Mvp60.init { Memory := List.replicate 64 0#8 } eu eu = .ok s0 ∧
+    Proofs.Mvp60Sl.Rel app s0 ⟨{ Memory := List.replicate 64 0#8 }, 0#32⟩ :=
+  Proofs.Mvp60Sl.init_rel app _ ⟨rfl, rfl, fun r => rfl⟩ eu eu rfl
 
 end Props.C03
